@@ -98,7 +98,7 @@ class Engine:
     '''Decision-prefix DFS over the feasible paths of a scenario function.'''
 
     def __init__(self, *, query_timeout_ms=30000, max_paths=None, time_limit=None,
-                 max_decisions=5000, keep_samples=3, stop_on_violation=True):
+                 max_decisions=5000, keep_samples=3, stop_on_violation=False, max_violations=6):
         self.solver = z3.Solver()
         self.solver.set('timeout', query_timeout_ms)
         self.max_paths = max_paths
@@ -106,6 +106,7 @@ class Engine:
         self.max_decisions = max_decisions
         self.keep_samples = keep_samples
         self.stop_on_violation = stop_on_violation
+        self.max_violations = max_violations
         self.stats = Stats()
         self.inputs = {}          # name -> (kind, z3 term(s)) registered by fresh_*
         self.trace = []           # decisions of the current path: [value, other_side_open]
@@ -458,7 +459,7 @@ class Engine:
             st.max_depth = max(st.max_depth, len(self.trace))
             if on_path:
                 on_path(outcome)
-            if outcome == 'violation' and self.stop_on_violation:
+            if outcome == 'violation' and (self.stop_on_violation or len(st.violations) >= self.max_violations):
                 self.truncated = True
                 break
             tr = self.trace
